@@ -212,10 +212,10 @@ def run_c08(pid):
     # differ in one setting (window, LPC order, correlation, partition order) over the same input and block length, in an order in
     # which every variant runs first, right after every other variant, and right after itself; plus a shorter stream in between
     hist = []
-    base = {"block_size": 64, "max_lpc": 8, "mid_side": True, "fast_corr": False, "window": "tukey"}
+    base = {"block_size": 256, "max_lpc": 8, "mid_side": True, "fast_corr": False, "window": "tukey"}
     variants = [dict(base), dict(base, window="hann"), dict(base, window="rect"), dict(base, window="tukey:0.25"), dict(base, max_lpc=12),
                 dict(base, max_lpc=-1), dict(base, mid_side=False), dict(base, fast_corr=True), dict(base, max_po=0)]
-    for hi, (ch, bps, frames) in enumerate(((1, 16, 64 * 3), (2, 16, 64 * 3), (2, 24, 64 * 4 + 7))):     # whole blocks: the last block analysed has the length of the next first one
+    for hi, (ch, bps, frames) in enumerate(((1, 16, 256 * 3), (2, 16, 256 * 3), (2, 24, 256 * 2 + 7))):     # whole blocks: the last block analysed has the length of the next first one
         order = []
         nv = len(variants)
         for a in range(nv):                       # a, b, a for every ordered pair: each variant is met fresh, after itself and after each other
@@ -226,11 +226,11 @@ def run_c08(pid):
             order = order[hi::3][:70] + list(range(nv)) + list(range(nv))[::-1]
         fe = FES[hi % len(FES)]
         for n_, vi in enumerate(order):
-            hist.append({"fe": fe, "rate": 44100, "bps": bps, "channels": ch, "opts": variants[vi], "pcm": pcm_spec("sine", 9100 + hi, frames),
+            hist.append({"fe": fe, "rate": 44100, "bps": bps, "channels": ch, "opts": variants[vi], "pcm": pcm_spec(("hitone", "periodic:7", "altdecay:3")[hi], 9100 + hi, frames),
                          "writes": [frames * upf_of(fe, ch, bps)], "pcm_id": 9100 + hi, "opts_id": 100 + vi, "tag": "history"})
             if n_ % 5 == 4:                       # another stream of another length in between
-                hist.append({"fe": fe, "rate": 44100, "bps": bps, "channels": ch, "opts": variants[(vi + 3) % nv], "pcm": pcm_spec("walk", 9200 + hi, 100),
-                             "writes": [100 * upf_of(fe, ch, bps)], "pcm_id": 9200 + hi, "opts_id": 100 + (vi + 3) % nv, "tag": "history"})
+                hist.append({"fe": fe, "rate": 44100, "bps": bps, "channels": ch, "opts": variants[(vi + 3) % nv], "pcm": pcm_spec("hitone", 9200 + hi, 300),
+                             "writes": [300 * upf_of(fe, ch, bps)], "pcm_id": 9200 + hi, "opts_id": 100 + (vi + 3) % nv, "tag": "history"})
     parts.append(hist)
     traces = []
 
